@@ -142,7 +142,7 @@ func allConfigs(th bool) []explore.Config {
 		// entries holding several items, built in every order, then every removal path
 		for _, fib := range fibs {
 			c = append(c, explore.Config{Name: "multi " + fib + " localhop=off rib4", MaxDepth: 3, MaxDev: -1})
-			c = append(c, explore.Config{Name: "multi " + fib + " localhop=off rib3", MaxDepth: 4, MaxDev: -1})
+			c = append(c, explore.Config{Name: "multi " + fib + " localhop=off rib2", MaxDepth: 4, MaxDev: -1})
 			c = append(c, explore.Config{Name: "multi " + fib + " localhop=off fib", MaxDepth: 4, MaxDev: -1})
 			c = append(c, explore.Config{Name: "multi " + fib + " localhop=off strategy", MaxDepth: 4, MaxDev: -1})
 		}
